@@ -693,7 +693,7 @@ theorem tables_triplet_pair (l : RawLayout) (hl : l ∈ Earverif.Gen.C05.layouts
       rw [hck, hr] at hr2
       have : r2 = r := (Option.some.inj hr2).symm
       subst this
-      rcases hkind with ⟨_, h, _⟩ | ⟨h, _, _⟩
+      rcases hkind with ⟨_, h, _⟩ | ⟨h, _, _, _⟩
       · exact h
       · rw [k0] at h; exact absurd h (by decide)
     have kc' : c'.kind = 0 := by
@@ -701,7 +701,7 @@ theorem tables_triplet_pair (l : RawLayout) (hl : l ∈ Earverif.Gen.C05.layouts
       rw [hck', hr'] at hr2
       have : r2 = r' := (Option.some.inj hr2).symm
       subst this
-      rcases hkind with ⟨_, h, _⟩ | ⟨h, _, _⟩
+      rcases hkind with ⟨_, h, _⟩ | ⟨h, _, _, _⟩
       · exact h
       · rw [k0'] at h; exact absurd h (by decide)
     exact ⟨meet_of_outer (hs.cellsOk c hc) (hs.cellsOk c' hc') kc kc' (m2 hkk), m3 kc kc'⟩
